@@ -180,6 +180,10 @@ struct Kernel {
     signals_enabled: bool,
     /// signals raised from now on are owed to the application
     counting_signals: bool,
+    /// termination signals are owed from the moment capability detection touches the tty (the
+    /// signal pipe is registered before that): from the constructor's error or a later poll
+    counting_quits: bool,
+    constructing: bool,
     wakes_requested: u64,
     last_wake_seq: u64,
     winch_raised: u64,
@@ -208,6 +212,30 @@ struct Kernel {
 }
 
 type K = Rc<RefCell<Kernel>>;
+
+/// Hook H6: the terminal thread is about to read the waker socket or the signal pipe. Other
+/// threads may run here: time passes, due actor events happen, and (tape permitting) a wake
+/// request that was scheduled for later is made right now - its time was arbitrary anyway.
+pub(super) fn install_yield_hook(kernel: &K) {
+    let kernel = kernel.clone();
+    surf_n_term::common::verif_yield::set(Some(Box::new(move |name: &'static str| {
+        let mut k = kernel.borrow_mut();
+        k.tick();
+        if k.src.chance(1, 4) {
+            let key = k.events.iter().find(|(_, ev)| matches!(ev, Ev::Wake)).map(|(key, _)| *key);
+            if let Some(key) = key {
+                k.events.remove(&key);
+                let now = k.now;
+                k.seq += 1;
+                let seq = k.seq;
+                k.events.insert((now, seq), Ev::Wake);
+                k.src.fault("wake-request-lands-between-readiness-and-read");
+            }
+        }
+        k.src.sig_str(name);
+        k.run_due();
+    })));
+}
 
 fn cooked_termios() -> Termios {
     use rustix::termios::{ControlModes, InputModes, LocalModes, OutputModes};
@@ -497,7 +525,11 @@ impl Kernel {
                     let now = self.now;
                     self.src.log(|| format!("t={}us raise({})", now / US, sig));
                     self.src.sig(0x5160 + sig as u64);
-                    if self.counting_signals {
+                    if sig != libc::SIGWINCH && self.counting_quits && !self.counting_signals {
+                        // during capability detection
+                        self.quit_raised += 1;
+                        self.src.probe("termination-signal-during-detection");
+                    } else if self.counting_signals {
                         if sig == libc::SIGWINCH {
                             self.winch_raised += 1;
                             if resize {
@@ -659,6 +691,10 @@ impl rustix::sim::Hooks for HooksImpl {
         let read_fds: Vec<RawFd> = readfds.as_ref().map(|s| FdSetIter::new(s).collect()).unwrap_or_default();
         let write_fds: Vec<RawFd> = writefds.as_ref().map(|s| FdSetIter::new(s).collect()).unwrap_or_default();
         k.last_read_fds = read_fds.clone();
+        if k.constructing && !k.counting_quits {
+            // first poll of capability detection: the signal pipe is registered by now
+            k.counting_quits = true;
+        }
         k.tick();
         let past_deadline = k.in_poll && k.poll_deadline.is_some_and(|d| k.now > d);
         if past_deadline {
@@ -857,6 +893,7 @@ fn run(ctx: &Ctx, src: &mut Src) -> WorldResult {
     let kernel: K = Rc::new(RefCell::new(new_kernel(live)));
     let result = catch_unwind(AssertUnwindSafe(|| session(ctx, &kernel)));
     rustix::sim::uninstall();
+    surf_n_term::common::verif_yield::set(None);
     {
         let mut k = kernel.borrow_mut();
         k.waker = None;
@@ -930,6 +967,8 @@ fn new_kernel(mut src: Src) -> Kernel {
         waker: None,
         signals_enabled: false,
         counting_signals: false,
+        counting_quits: false,
+        constructing: false,
         wakes_requested: 0,
         last_wake_seq: 0,
         winch_raised: 0,
@@ -1197,6 +1236,7 @@ fn session(ctx: &Ctx, kernel: &K) -> WorldResult {
     let raw = fd.as_raw_fd();
     kernel.borrow_mut().tty_fd = raw;
     rustix::sim::install(raw, Box::new(HooksImpl(kernel.clone())));
+    install_yield_hook(kernel);
 
     // faults that may hit during construction
     {
@@ -1227,7 +1267,9 @@ fn session(ctx: &Ctx, kernel: &K) -> WorldResult {
     // signals may only be raised once signal-hook handlers exist in this process; make sure of it
     ensure_signal_hook_installed();
 
+    kernel.borrow_mut().constructing = true;
     let built = guarded(|| SystemTerminal::new_from_fd(fd));
+    kernel.borrow_mut().constructing = false;
     let built_info = match &built {
         Ok(Ok(term)) => format!("caps={:?} size={:?} frames_pending={}", term.capabilities(), term.size().ok(), term.frames_pending()),
         _ => String::new(),
@@ -1250,6 +1292,8 @@ fn session(ctx: &Ctx, kernel: &K) -> WorldResult {
             if prop == "C17" && !restored && calls > 0 {
                 return Err(violation("C17", "C17.termios", "termios-not-restored-after-failed-construction", format!("construction failed with {:?} and left the tty in raw mode", err)));
             }
+            // (a termination signal during detection is reported by this very error, or, when
+            // construction failed for another reason, to nobody: the object does not exist)
             return Ok(());
         }
         Ok(Ok(term)) => term,
